@@ -193,7 +193,28 @@ def _(c):
         kw = f.a.kwargs.d if hasattr(f.a.kwargs, "d") else f.a.kwargs
         am = kw.get("**")
         if am is None or len(kw) != 1:
-            raise Unsupported("buildCommand with explicit keyword arguments")
+            # explicit keyword arguments (not used by the unchanged code): what buildCommand's own contract proves for 0..3
+            # parameters -- the code, then each letter in order carrying exactly its value rendered by formatNumber (a
+            # 'plain' hole), or the bare letter for None
+            from pyvc.values import Hole, mkstr, Opt, is_number
+            if "**" in kw or not isinstance(f.a.gcode, str) or len(kw) > 3 or not all(isinstance(k, str) and len(k) == 1 for k in kw):
+                raise Unsupported("buildCommand with these keyword arguments")
+            f.interp.ctx.assumed.add("A2:GcodeParser.buildCommand(code, L=v, ...) renders the code and each letter with its value "
+                                     "through formatNumber (its own contract C06.merged-command-reads-back-as-its-arguments, 0..3 parameters)")
+            f.interp.ctx.log_write(f.self, "*")
+            parts = [f.a.gcode]
+            for k, v in kw.items():
+                parts.append(" " + k)
+                if isinstance(v, Opt):
+                    if f.interp.truth(v.isnone, None):
+                        continue
+                    v = v.val
+                if v is None:
+                    continue
+                if not is_number(v):
+                    raise Unsupported("buildCommand with a non-numeric argument")
+                parts.append(Hole(v, plain=True))
+            return mkstr(parts)
         f.interp.ctx.assumed.add("A2:GcodeParser.buildCommand(gcode, **args) is an opaque rendering of (gcode, args); its format is judged by C07")
         f.interp.ctx.log_write(f.self, "*")
         return render_fn()(sstr_to_z3(f.a.gcode), am.has, am.none, am.val)
